@@ -54,6 +54,21 @@
 (* lookup) and "sharedsem" (the semaphore lives on the instance: permits held by hanging node      *)
 (* calls of earlier submissions are missing later).  Overlapping submissions on one instance are   *)
 (* in SubmitterInst.tla.                                                                           *)
+(*                                                                                                *)
+(* EVERY KIND HAS ITS OWN NODE LIST (round 4).  Vouch configures the beacon nodes of each of the   *)
+(* eight kinds of submission separately (submitter.<kind>.multinode.beacon-node-addresses): the    *)
+(* instance is a POOL of peers (nodes, indexed 1..Len(nodes)) and conf[k], the peers configured    *)
+(* for kind k - any non-empty subset, of different sizes for different kinds.  "Every configured   *)
+(* node", "some node accepted", "process concurrency not below the number of nodes" all read       *)
+(* conf[kind] of the submission at hand (N), never another kind's list; a peer outside N is never   *)
+(* called.  The environment also chooses, per node, a delayed reply of either sign and its RANK    *)
+(* (lat: 1..MaxLat in-time clock phases), i.e. the ORDER of the completions: rejections that       *)
+(* arrive before, between and after the first acceptance within the time-out.  Designs: "allfailed" *)
+(* (the caller is also woken when the last of ITS nodes has failed; satisfies C08: an early error   *)
+(* return is right when nobody is left who could accept) and the deviation "wrongcount" (the       *)
+(* failures are counted against the node list of ANOTHER kind, RefKind - seeded/C08-allfailed-     *)
+(* early-return-wrong-count), right whenever the two lists are equally long and REJECTED by TLC     *)
+(* when kind's list is longer (vacuity self-check).                                               *)
 EXTENDS Integers, Sequences, FiniteSets, TLC, SubmitterScatter, SubmitterClassifier
 
 CONSTANTS KindSet,      \* submission kinds explored
@@ -64,14 +79,20 @@ CONSTANTS KindSet,      \* submission kinds explored
           HistClients,  \* client types of the instance's nodes in histories ({}: the canonical nodes
                         \* of the single-submission quantifier, MaxCalls = 1)
           HistOutcomes, \* outcomes a node can show at one submission of a history
-          Design        \* "asks" | "cacheok" | "memofail" | "sharedsem" (see above)
+          Design,       \* "asks" | "cacheok" | "memofail" | "sharedsem" | "allfailed" | "wrongcount" (see above)
+          MaxLat,       \* number of in-time clock phases after the start = ranks of delayed replies (>= 2)
+          CanonOuts,    \* single submissions: the outcomes assigned to the configured nodes ({}: Outcomes)
+          ConfSets,     \* node lists a kind can be configured with ({}: every kind has the whole pool)
+          OtherSets,    \* single submissions: node lists of the OTHER kinds ({}: the whole pool)
+          RefKind       \* design "wrongcount": the kind whose node list the failures are counted against
 
 -----------------------------------------------------------------------------
 (* Layer 2: the instance, the configuration of the current submission, observation variables,    *)
 (* invariants                                                                                    *)
 
-VARIABLES kind, conc, items, nodes,       \* configuration of this submission (nodes: sequence of NodeV; conc and
-                                          \* the nodes' clients belong to the instance and never change)
+VARIABLES kind, conc, items, nodes,       \* configuration of this submission (nodes: sequence of NodeV, one per peer
+                                          \* of the pool; conc and the peers' clients belong to the instance and never change)
+          conf,       \* INSTANCE, fixed: kind -> the peers configured for that kind of submission
           known,      \* INSTANCE, persistent: per node, the client types it reported (was ready to report) at the
                       \* submissions started so far - all the instance can have learned about it
           callNo,     \* INSTANCE: index of the current submission in the history
@@ -85,10 +106,11 @@ VARIABLES kind, conc, items, nodes,       \* configuration of this submission (n
           final       \* the observation is over (everything that happens by T + tolerance has happened)
 
 cvars == <<kind, conc, items, nodes>>
-ivars == <<known, callNo>>
+ivars == <<conf, known, callNo>>
 ovars == <<offered, callAt, reply, done, pre, ret, retAt, final>>
 
-N == 1..Len(nodes)
+Pool == 1..Len(nodes)
+N == conf[kind]          \* the nodes of THIS submission: the peers configured for its kind
 
 ObsInit ==
     /\ offered = [n \in N |-> <<>>]
@@ -100,9 +122,10 @@ ObsInit ==
     /\ retAt = "none"
     /\ final = FALSE
 
-Learn(old, nds) == [n \in DOMAIN nds |-> old[n] \cup (IF Reported(nds[n]) = "none" THEN {} ELSE {Reported(nds[n])})]
+\* what the instance can learn at a submission to the peers `who`
+Learn(old, nds, who) == [n \in DOMAIN old |-> IF n \in who /\ Reported(nds[n]) # "none" THEN old[n] \cup {Reported(nds[n])} ELSE old[n]]
 InstInit ==
-    /\ known = Learn([n \in N |-> {}], nodes)
+    /\ known = Learn([n \in Pool |-> {}], nodes, N)
     /\ callNo = 1
 
 \* node n is called (first chunk arrives at instant class `at`) and is handed `chunks`
@@ -123,18 +146,18 @@ ObsReturn(r, at) ==
 \* The next submission on the SAME instance: same nodes (same clients), same concurrency; kind,
 \* payload and what every node does - including whether it answers its version query - are new.
 \* Only `known` is carried over (and grows by what the nodes report from now on).
-SameInstance(nds) == Len(nds) = Len(nodes) /\ \A n \in N : nds[n].client = nodes[n].client
+SameInstance(nds) == Len(nds) = Len(nodes) /\ \A n \in Pool : nds[n].client = nodes[n].client
 ObsNextCall(k, it, nds) ==
     /\ final
     /\ SameInstance(nds)
-    /\ kind' = k /\ items' = it /\ nodes' = nds /\ conc' = conc
+    /\ kind' = k /\ items' = it /\ nodes' = nds /\ conc' = conc /\ conf' = conf
     /\ callNo' = callNo + 1
-    /\ known' = Learn(known, nds)
-    /\ offered' = [n \in N |-> <<>>]
-    /\ callAt' = [n \in N |-> "no"]
-    /\ reply' = [n \in N |-> "none"]
-    /\ done' = [n \in N |-> "no"]
-    /\ pre' = [n \in N |-> FALSE]
+    /\ known' = Learn(known, nds, conf[k])
+    /\ offered' = [n \in conf[k] |-> <<>>]
+    /\ callAt' = [n \in conf[k] |-> "no"]
+    /\ reply' = [n \in conf[k] |-> "none"]
+    /\ done' = [n \in conf[k] |-> "no"]
+    /\ pre' = [n \in conf[k] |-> FALSE]
     /\ ret' = "none" /\ retAt' = "none" /\ final' = FALSE
 
 \* The node's reply counts as a delivery ...
@@ -152,8 +175,10 @@ Count(chunks, i) == Cardinality({p \in {<<c, k>> : c \in 1..Len(chunks), k \in 1
 InRange(chunks) == \A c \in 1..Len(chunks) : \A k \in 1..Len(chunks[c]) : chunks[c][k] \in 0..(items - 1)
 Whole(n) == InRange(offered[n]) /\ \A i \in 0..(items - 1) : Count(offered[n], i) = 1
 AllQuick == \A n \in N : nodes[n].out \in {"accept", "error"}
-Roomy == conc >= Len(nodes)
+Roomy == conc >= Cardinality(N)
 
+\* (N is the node list of THIS kind: with per-kind lists of different sizes "every node", "room for
+\* every node" and - in SuccessIff - "some node" are about conf[kind] and nothing else.)
 \* C08, first sentence and proviso: offered in full to every node (each element once), also to a
 \* slow or hanging one.  Without room for every node the property only promises this when no
 \* node is slow.  (What nodes did at EARLIER submissions - hanging calls still in flight - and what
@@ -185,21 +210,26 @@ VARIABLES mpc,        \* caller: "pre" (goroutines started, not yet in Wait) | "
           due,        \* per node: clock value from which its reply is available (99: never)
           completed,  \* the atomic flag
           tpc,        \* time-out signaller: "armed" | "done"
-          clock,      \* 0 start, 1 between start and T, 2 at T, 3 after T
+          clock,      \* 0 start, 1..MaxLat between start and T, MaxLat + 1 at T, MaxLat + 2 after T
           lost,       \* dropped signals (observation only)
           memo,       \* INSTANCE, designs "cacheok" / "memofail" only: per node the remembered client type ("unset": nothing yet)
-          held        \* INSTANCE, design "sharedsem" only: permits still held by node calls of earlier submissions
+          held,       \* INSTANCE, design "sharedsem" only: permits still held by node calls of earlier submissions
+          fails       \* designs "allfailed" / "wrongcount" only: node goroutines of this submission that have failed
 
-mvars == <<mpc, npc, sem, due, completed, tpc, clock, lost, memo, held>>
+mvars == <<mpc, npc, sem, due, completed, tpc, clock, lost, memo, held, fails>>
 vars == <<cvars, ivars, ovars, mvars>>
 
+\* clock: 0 start, 1..MaxLat between start and T (the ranks of delayed in-time replies), TAt at T, TAfter after T
+TAt == MaxLat + 1
+TAfter == MaxLat + 2
 AtOfCall == IF clock = 0 THEN "early" ELSE "late"
-AtOfClock == IF clock <= 1 THEN "before" ELSE IF clock = 2 THEN "amb" ELSE "after"
+AtOfClock == IF clock < TAt THEN "before" ELSE IF clock = TAt THEN "amb" ELSE "after"
 
 \* what every node does at one submission of a history: outcome x version query
+\* (a peer that is not configured for kind k plays no part in the submission: one fixed description)
 HistVector(k, clientOf) ==
     {[n \in DOMAIN clientOf |-> HNode(k, clientOf[n], f[n][1], f[n][2])] :
-        f \in [DOMAIN clientOf -> HistOutcomes \X Vers]}
+        f \in {g \in [DOMAIN clientOf -> HistOutcomes \X Vers] : \A n \in DOMAIN clientOf \ conf[k] : g[n] = <<"accept", "ok">>}}
 
 MechInit ==
     /\ mpc = "pre"
@@ -210,30 +240,44 @@ MechInit ==
     /\ tpc = "armed"
     /\ clock = 0
     /\ lost = 0
+    /\ fails = 0
+
+\* the node lists the kinds can be configured with on a pool of k peers
+ConfsFor(k) == IF ConfSets = {} THEN {1..k} ELSE {c \in ConfSets : c # {} /\ c \subseteq 1..k}
+OthersFor(k) == IF OtherSets = {} THEN {1..k} ELSE {c \in OtherSets : c # {} /\ c \subseteq 1..k}
+InitOuts == IF CanonOuts = {} THEN Outcomes ELSE CanonOuts
 
 Init ==
     /\ kind \in KindSet
     /\ conc \in ConcSet
     /\ items \in ItemSet
     /\ IF HistClients = {}
-       THEN \E k \in NodeCounts : nodes \in [1..k -> CanonNodes(kind)]
-       ELSE \E k \in NodeCounts : \E cl \in [1..k -> HistClients] : nodes \in HistVector(kind, cl)
+       THEN \* one submission: what matters of the configuration is the node list of its kind and (for the
+            \* design that looks at another kind's list) the list all other kinds have
+            \E k \in NodeCounts : \E own \in ConfsFor(k), other \in OthersFor(k) :
+               /\ conf = [kk \in Kinds |-> IF kk = kind THEN own ELSE other]
+               /\ nodes \in [1..k -> {Canon(kind, o) : o \in InitOuts}]
+               /\ \A n \in (1..k) \ own : nodes[n] = Canon(kind, "accept")
+       ELSE \E k \in NodeCounts : \E cf \in [KindSet -> ConfsFor(k)] :
+               /\ conf = [kk \in Kinds |-> IF kk \in KindSet THEN cf[kk] ELSE 1..k]
+               /\ \E cl \in [1..k -> HistClients] : nodes \in HistVector(kind, cl)
     /\ ObsInit
     /\ InstInit
     /\ MechInit
-    /\ memo = [n \in N |-> "unset"]
+    /\ memo = [n \in Pool |-> "unset"]
     /\ held = 0
 
 \* w.Wait(): the caller registers on the notify list
 WaitReg ==
     /\ mpc = "pre"
     /\ mpc' = "waiting"
-    /\ UNCHANGED <<cvars, ivars, ovars, npc, sem, due, completed, tpc, clock, lost, memo, held>>
+    /\ UNCHANGED <<cvars, ivars, ovars, npc, sem, due, completed, tpc, clock, lost, memo, held, fails>>
 
-DueOf(out) == CASE out \in {"accept", "error"} -> clock
-                [] out \in {"slowok", "held"} -> clock + 1
-                [] out = "late" -> IF clock < 2 THEN 3 ELSE clock + 1
-                [] out = "hang" -> 99
+DueOf(nd) == CASE nd.out \in {"accept", "error"} -> clock
+               [] nd.out \in {"slowok", "slowerr"} -> clock + LatOf(nd)
+               [] nd.out = "held" -> clock + 1
+               [] nd.out = "late" -> IF clock < TAt THEN TAfter ELSE clock + 1
+               [] nd.out = "hang" -> 99
 
 \* serviceInfo(): what the design remembers about node n after looking it up now
 MemoAfterLookup(n) ==
@@ -254,24 +298,37 @@ AcquireCall(n) ==
     /\ sem + held < conc
     /\ sem' = sem + 1
     /\ npc' = [npc EXCEPT ![n] = "calling"]
-    /\ due' = [due EXCEPT ![n] = DueOf(nodes[n].out)]
+    /\ due' = [due EXCEPT ![n] = DueOf(nodes[n])]
     /\ memo' = [memo EXCEPT ![n] = MemoAfterLookup(n)]
     /\ ObsCall(n, ChunksFor(kind, items, conc), AtOfCall)
-    /\ UNCHANGED <<cvars, ivars, reply, done, pre, ret, retAt, final, mpc, completed, tpc, clock, lost, held>>
+    /\ UNCHANGED <<cvars, ivars, reply, done, pre, ret, retAt, final, mpc, completed, tpc, clock, lost, held, fails>>
+
+\* designs "allfailed" / "wrongcount": the number of failed node goroutines at which the caller is woken
+\* ("allfailed": the nodes of this submission; "wrongcount": the node list of kind RefKind)
+CountsFailures == Design \in {"allfailed", "wrongcount"}
+FailBound == IF Design = "wrongcount" THEN Cardinality(conf[RefKind]) ELSE Cardinality(N)
 
 \* the node replied; the code classifies the reply and, for an (effective) acceptance, sets the flag
+\* (designs that count failures: the goroutine whose failure reaches the bound signals the caller)
 Complete(n) ==
     /\ npc[n] = "calling"
     /\ due[n] <= clock
-    /\ LET r == IF nodes[n].out = "error" \/ (nodes[n].out = "held" /\ nodes[n].reason # "none") THEN "error" ELSE "accept"
+    /\ LET r == IF IsErr(nodes[n]) THEN "error" ELSE "accept"
            eff == r = "accept" \/ Tolerated(kind, ClassClient(n), nodes[n].reason)
        IN /\ ObsComplete(n, r, AtOfClock)
           /\ IF eff THEN /\ completed' = TRUE
                          /\ npc' = [npc EXCEPT ![n] = "sig"]
                          /\ sem' = sem
+                         /\ fails' = fails
+                    ELSE IF CountsFailures /\ fails + 1 = FailBound
+                    THEN /\ completed' = completed
+                         /\ npc' = [npc EXCEPT ![n] = "sig"]
+                         /\ sem' = sem
+                         /\ fails' = fails + 1
                     ELSE /\ completed' = completed
                          /\ npc' = [npc EXCEPT ![n] = "end"]
                          /\ sem' = sem - 1
+                         /\ fails' = IF CountsFailures THEN fails + 1 ELSE fails
     /\ UNCHANGED <<cvars, ivars, offered, callAt, ret, retAt, final, mpc, due, tpc, clock, lost, memo, held>>
 
 \* Go's Cond.Signal: wakes a registered waiter, otherwise does nothing
@@ -285,22 +342,22 @@ SignalN(n) ==
     /\ SignalEffect
     /\ npc' = [npc EXCEPT ![n] = "end"]
     /\ sem' = sem - 1
-    /\ UNCHANGED <<cvars, ivars, ovars, due, completed, tpc, clock, memo, held>>
+    /\ UNCHANGED <<cvars, ivars, ovars, due, completed, tpc, clock, memo, held, fails>>
 
 \* time.Sleep(timeout); w.Signal()
 TimeoutSignal ==
     /\ tpc = "armed"
-    /\ clock >= 2
+    /\ clock >= TAt
     /\ SignalEffect
     /\ tpc' = "done"
-    /\ UNCHANGED <<cvars, ivars, ovars, npc, sem, due, completed, clock, memo, held>>
+    /\ UNCHANGED <<cvars, ivars, ovars, npc, sem, due, completed, clock, memo, held, fails>>
 
 \* the caller wakes, reads the flag and returns
 Return ==
     /\ mpc = "woken"
     /\ mpc' = "ret"
     /\ ObsReturn(IF completed THEN "ok" ELSE "err", AtOfClock)
-    /\ UNCHANGED <<cvars, ivars, offered, callAt, reply, done, pre, final, npc, sem, due, completed, tpc, clock, lost, memo, held>>
+    /\ UNCHANGED <<cvars, ivars, offered, callAt, reply, done, pre, final, npc, sem, due, completed, tpc, clock, lost, memo, held, fails>>
 
 \* Env_StepsAreFast: a code step that can be taken is taken before time passes
 Urgent ==
@@ -308,16 +365,16 @@ Urgent ==
     \/ \E n \in N : npc[n] = "start" /\ sem + held < conc
     \/ \E n \in N : npc[n] = "calling" /\ due[n] <= clock
     \/ \E n \in N : npc[n] = "sig"
-    \/ tpc = "armed" /\ clock >= 2
+    \/ tpc = "armed" /\ clock >= TAt
 
 Tick ==
-    /\ clock < 3
+    /\ clock < TAfter
     /\ ~ Urgent
     /\ clock' = clock + 1
-    /\ UNCHANGED <<cvars, ivars, ovars, mpc, npc, sem, due, completed, tpc, lost, memo, held>>
+    /\ UNCHANGED <<cvars, ivars, ovars, mpc, npc, sem, due, completed, tpc, lost, memo, held, fails>>
 
 Finish ==
-    /\ clock = 3
+    /\ clock = TAfter
     /\ ~ Urgent
     /\ ~ final
     /\ final' = TRUE
@@ -331,11 +388,12 @@ NextCall ==
     /\ callNo < MaxCalls
     /\ HistClients # {}
     /\ \E k \in KindSet, it \in ItemSet :
-         \E nds \in HistVector(k, [n \in N |-> nodes[n].client]) : ObsNextCall(k, it, nds)
+         \E nds \in HistVector(k, [n \in Pool |-> nodes[n].client]) : ObsNextCall(k, it, nds)
     /\ mpc' = "pre"
-    /\ npc' = [n \in N |-> "start"]
+    /\ npc' = [n \in conf[kind'] |-> "start"]
     /\ sem' = 0
-    /\ due' = [n \in N |-> 99]
+    /\ due' = [n \in conf[kind'] |-> 99]
+    /\ fails' = 0
     /\ completed' = FALSE
     /\ tpc' = "armed"
     /\ clock' = 0
@@ -352,13 +410,16 @@ Spec == Init /\ [][Next]_vars
 -----------------------------------------------------------------------------
 TypeOK ==
     /\ kind \in Kinds
-    /\ sem \in 0..Len(nodes)
+    /\ sem \in 0..Cardinality(N)
     /\ sem <= conc
-    /\ clock \in 0..3
+    /\ clock \in 0..TAfter
+    /\ N # {} /\ N \subseteq Pool
+    /\ DOMAIN offered = N /\ DOMAIN npc = N
+    /\ fails \in 0..Cardinality(N)
     /\ ret \in {"none", "ok", "err"}
-    /\ lost \in 0..(Len(nodes) + 1)
+    /\ lost \in 0..(Cardinality(N) + 1)
     /\ callNo \in 1..MaxCalls
-    /\ \A n \in N : known[n] \subseteq Clients
+    /\ \A n \in Pool : known[n] \subseteq Clients
 
 \* the flag is set only by an acceptance that has been observed
 FlagSound == completed => \E n \in N : MayAccept(n)
